@@ -41,6 +41,7 @@ FINISH = dict(
                  "round trip is stated for foundations without ' ' (and without newline at stream level), ufrag/pwd without newline",
                  "little-endian host (ntohl = byte swap)"])
 
+COQ_TARGETS = ["Props/Properties_C18.vo", "Sdp/Extract_Sdp.vo"]      # what `./check setup` builds for this property
 DRIVER = ["zutil_z.ml.in", "sdp_driver.ml"]
 SPECS = [("agent/address.c", ["ipv4_address_is_private", "ipv4_address_is_linklocal"], [])]
 
@@ -740,7 +741,7 @@ def run(chk):
         chk.broken_obligation("translator", err)
     else:
         chk.cov["translated_functions"] = sorted(info)
-    chk.prove(["Props/Properties_C18.v"], ["Sdp/Extract_Sdp.vo"])
+    chk.prove(["Props/Properties_C18.v"], COQ_TARGETS[1:])
     model, o = vlib.ocaml_build("sdp_model", "sdp_model", DRIVER)
     if not model:
         chk.broken_obligation("extract-build", o[-2000:])
@@ -748,11 +749,17 @@ def run(chk):
     if not impl:
         chk.broken_obligation("impl-build", o[-3000:])
     if impl:
-        cases = gen_cases(chk.rng, 6000 if chk.tier == "quick" else 400000)
-        if model:
-            vlib.correspond(chk, cases, model, impl, oracle=oracle, what="sdp-address", nontrivial=nontrivial)
-        else:
-            vlib.correspond(chk, cases, impl, impl, oracle=oracle, what="sdp-address-oracle-only", nontrivial=nontrivial)
+        # thorough: batches keep the memory bounded (each batch repeats the ~700 structured boundary cases)
+        batches = [12000] if chk.tier == "quick" else [300000] * 10
+        for b, n in enumerate(batches):
+            cases = gen_cases(chk.rng, n)
+            what = "sdp-address" if len(batches) == 1 else "sdp-address-%d" % b
+            if model:
+                vlib.correspond(chk, cases, model, impl, oracle=oracle, what=what, nontrivial=nontrivial)
+            else:
+                vlib.correspond(chk, cases, impl, impl, oracle=oracle, what=what + "-oracle-only", nontrivial=nontrivial)
+            if chk.violations:
+                break
     return chk.finish(**FINISH)
 
 
